@@ -69,6 +69,10 @@ func NewRigoApp(config *cfg.Config, logger log.Logger) *RigoApp {
 		panic(err)
 	}
 
+	if err := stakeCtrler.RestoreValidators(govCtrler.ParamsAt); err != nil {
+		panic(err)
+	}
+
 	vmCtrler := evm.NewEVMCtrler(config.DBDir(), acctCtrler, logger)
 
 	// the first parameter of NewTrxExecutor `n` is 0,
